@@ -32,19 +32,21 @@ META = {
                  "of the extracted model against the running squid + independent Python reference reader as oracle",
 }
 
-BOUNDS = [4096, 8192, 16384, 32768, 65536, 131072]
+BOUNDS = [4096, 8192, 16384, 32768, 65536]
 STATUSES = [200, 200, 200, 200, 200, 203, 404, 500, 201, 410]
 
 
 def pick_size(rng):
     x = rng.random()
-    if x < 0.40:
+    if x < 0.42:
         return rng.choice([0, 1, 2, 3, 10, 100, rng.randrange(0, 3000), rng.randrange(0, 3000)])
-    if x < 0.78:
+    if x < 0.86:
         return max(0, rng.choice(BOUNDS) + rng.choice([-2, -1, 0, 1, 2]))
-    if x < 0.97:
-        return rng.randrange(3000, 300000)
-    return rng.randrange(900000, 1048577 + 2)
+    if x < 0.93:
+        return 131072 + rng.choice([-1, 0, 1])
+    if x < 0.993:
+        return rng.randrange(3000, 200000)
+    return rng.choice([1048575, 1048576, 1048577, rng.randrange(700000, 1048576)])
 
 
 def gen_one(rng, k):
@@ -107,7 +109,18 @@ def gen_one(rng, k):
 
 
 def gen_scenarios(rng, n):
-    return [gen_one(rng, k) for k in range(n)]
+    out = [gen_one(rng, k) for k in range(n)]
+    # every 150 scenarios relay at least one ~1 MB body
+    for start in range(20, n, 150):
+        for s in out[start:start + 40]:
+            if s["framing"] in ("cl", "chunked", "close") and s["method"] == "GET" and not s.get("bad") and "declared" not in s:
+                if s["n"] < 700000:
+                    s["n"] = 1048576 + rng.choice([-1, 0, 1])
+                    s["splits"] = s["splits"][:3]
+                    if "chunks" in s:
+                        s["chunks"] = [max(c, 1000) for c in s["chunks"]]
+                break
+    return out
 
 
 # ---------------------------------------------------------------------------------------------------------
@@ -216,13 +229,12 @@ def to_case(s):
     clen = "-"
     if s["framing"] == "cl":
         clen = str(s.get("declared", s["n"]))
-    line = "relay.resp %d %d %s %d %%d 4096 %s" % (s["status"], 1 if s["method"] == "HEAD" else 0, clen,
-                                                 1 if s["framing"] == "chunked" else 0, " ".join(evs))
-    out = line % (1 if s["ver"] == "1.1" else 0)
+    vers = "1" if s["ver"] == "1.1" else "0"
     if s.get("cache"):
         # the second request is answered from the stored (or re-fetched) complete object: same stream to the store
-        out += " ; " + line % (1 if s["ver2"] == "1.1" else 0)
-    return out
+        vers += ",1" if s["ver2"] == "1.1" else ",0"
+    return "relay.resp %d %d %s %d %s 4096 %s" % (s["status"], 1 if s["method"] == "HEAD" else 0, clen,
+                                                1 if s["framing"] == "chunked" else 0, vers, " ".join(evs))
 
 
 # ---------------------------------------------------------------------------------------------------------
